@@ -49,6 +49,13 @@ Definition nothing_left_behind (st : state) : Prop :=
   (forall r, In r (st_recs st) -> live_at (st_fabs st) (r_fab r) (r_inc r)) /\
   (forall u, In u (st_subs st) -> live_at (st_fabs st) (u_fab u) (u_inc u)).
 
+(** *** ... not in the store either: every persisted fabric is in the RAM table with the same
+    incarnation (a removed fabric leaves no stored copy that an expiry or a restart would bring
+    back), and every persisted resumption record refers to a live fabric of its own incarnation. *)
+Definition store_tight (st : state) : Prop :=
+  (forall kf, In kf (st_kvfabs st) -> live_at (st_fabs st) (f_idx kf) (f_inc kf)) /\
+  (forall r, In r (st_kvrecs st) -> live_at (st_fabs st) (r_fab r) (r_inc r)).
+
 (** incarnation [c] is gone from the node *)
 Definition gone (st : state) (c : N) : Prop :=
   c < st_ninc st /\ forall f, In f (st_fabs st) -> f_inc f <> c.
@@ -89,6 +96,12 @@ Definition subs_tight (st : state) : bool :=
   forallb (fun u => live_at_b (st_fabs st) (u_fab u) (u_inc u)) (st_subs st).
 Definition tight_b (st : state) : bool :=
   sessions_tight st && records_tight st && subs_tight st.
+
+Definition kvfabs_tight (st : state) : bool :=
+  forallb (fun kf => live_at_b (st_fabs st) (f_idx kf) (f_inc kf)) (st_kvfabs st).
+Definition kvrecs_tight (st : state) : bool :=
+  forallb (fun r => live_at_b (st_fabs st) (r_fab r) (r_inc r)) (st_kvrecs st).
+Definition store_tight_b (st : state) : bool := kvfabs_tight st && kvrecs_tight st.
 
 Definition bound_b (st : state) : bool :=
   sessions_ok st && records_ok st && subs_ok st && kvrecords_ok st.
@@ -168,14 +181,17 @@ Definition resume_ok (st : state) (k : N) : bool :=
       1 session-outlives-fabric (a usable session or a reserved handshake slot)
       2 resumption-record-outlives-fabric  3 subscription-outlives-fabric
         (1-3 in the tight form [nothing_left_behind]: the fabric must be there, same incarnation)
-      4 persisted-record-outlives-fabric (against the persisted fabrics)
+      4 persisted-record-outlives-fabric (tight, against the RAM table; and against the
+        persisted fabrics: what a restart would accept)
+      8 persisted-fabric-outlives-fabric   9 removed-incarnation-returns (trace clause, [monitor])
       5 other-fabrics-affected             6 request-served-on-stale-session
       7 stale-record-resumed *)
 Definition step_verdict (pre : state) (o : op) (r : status) (post : state) : list N :=
   (if sessions_tight post then [] else [1]) ++
   (if records_tight post then [] else [2]) ++
   (if subs_tight post then [] else [3]) ++
-  (if kvrecords_ok post then [] else [4]) ++
+  (if kvrecs_tight post && kvrecords_ok post then [] else [4]) ++
+  (if kvfabs_tight post then [] else [8]) ++
   (match removes pre o with
    | Some (i, pase) => if negb (status_ok r) || frame_ok i pase pre post then [] else [5]
    | None => []
@@ -186,8 +202,24 @@ Definition step_verdict (pre : state) (o : op) (r : status) (post : state) : lis
    | _ => []
    end).
 
-Fixpoint monitor (pre : state) (tr : list (op * (status * state))) : list N :=
+(** *** Trace clause: an incarnation never comes back.  [seen] = the incarnations that were in
+    the fabric table (RAM or persisted) of any earlier state.  A fabric of the table after an
+    operation is either one of the table before it or a new incarnation. *)
+Definition incs (l : list fabric) : list N := map f_inc l.
+Definition memN (x : N) (l : list N) : bool := existsb (N.eqb x) l.
+
+Definition returns_b (seen : list N) (pre post : state) : bool :=
+  existsb (fun f => memN (f_inc f) seen && negb (memN (f_inc f) (incs (st_fabs pre))))
+          (st_fabs post).
+
+Fixpoint monitor_from (seen : list N) (pre : state) (tr : list (op * (status * state))) : list N :=
   match tr with
   | [] => []
-  | (o, (r, post)) :: rest => step_verdict pre o r post ++ monitor post rest
+  | (o, (r, post)) :: rest =>
+    step_verdict pre o r post ++
+    (if returns_b seen pre post then [9] else []) ++
+    monitor_from (seen ++ incs (st_fabs post)) post rest
   end.
+
+Definition monitor (pre : state) (tr : list (op * (status * state))) : list N :=
+  monitor_from (incs (st_fabs pre) ++ incs (st_kvfabs pre)) pre tr.
